@@ -44,7 +44,8 @@ RULE = ("exhaustive: (A) every history of <= 2 (quick) / <= 3 (thorough) single-
         "maximisation and/or positive scaling of the objective, scaling of the non-linear constraint, trackers on subsets of the "
         "steps; (E) exhaustive: an evaluator step with transforms on every batch of 3 vectors over {good, worse, completely failed = no "
         "functions, infeasible}; in every real run the delivered results must be, position by position, the back-transformed "
-        "versions of the delivered transformed results; nested optimizations (trackers on the outer and on the nested plan, the nested plan also run stand-alone first); "
+        "versions of the delivered transformed results (Chk_C12.paired_ok inside Coq: same class, functions in both or neither, user "
+        "objective = a * optimizer objective + b for the step's transform; the Python oracle adds equal lengths and equal variables); nested optimizations (trackers on the outer and on the nested plan, the nested plan also run stand-alone first); "
         "BasicOptimizer objects run 1-4 times (tolerance None/0/positive/defaulted; runs in which every evaluation fails, every "
         "result is infeasible, or the abort callback fires before the first / after k evaluations, in any order with normal runs): "
         "results (identity or None), variables and exit code are read after EVERY run, results compared with the model (fresh "
@@ -924,13 +925,27 @@ HEADER = ("From Ropt Require Import Model.Tracker.\n"
           f"Definition exh : list Tracker.config := {_EXH}.")
 
 
+def _transform_term(case):
+    """Per source step (a, b) with user objective = a * optimizer objective + b: the objective transform the driver ran the
+    step with (synthetic: TRANSFORMS; real: 1/c = sign * oscale of _problem)."""
+    def ab(step):
+        return (-1.0 if step["maximize"] else 1.0) * float(step.get("oscale", 1.0)), 0.0
+    if case["kind"] == "syn":
+        a, b = TRANSFORMS[case["transform"]]
+        return f"(tr3 {_q(a)} {_q(b)})"
+    if case["kind"] == "nested":
+        a, b = ab(case["outer"])
+        return f"(tr3 {_q(a)} {_q(b)})"
+    return cq.lst(f"({_q(a)}, {_q(b)})" for a, b in (ab(s) for s in case["steps"]))
+
+
 def coq_case(case, obs):
     handlers = _handlers_term(_effective(case, obs))
     if handlers == _EXH:
         handlers = "exh"
     ops = cq.lst(_op_term(op) for op in obs["history"])
     held = cq.lst(cq.lst(_held_term(h) for h in hs) for hs in obs["held"])
-    return f"(Build_case {handlers} {ops} {held})"
+    return f"(Build_case {handlers} {ops} {held} {_transform_term(case)})"
 
 
 # ---- oracle: the property text on the implementation's output (no model) --------------------------
@@ -1095,7 +1110,10 @@ MANIFEST = {
                    "unchanged at any position; that the grouping of results into events is irrelevant (a batch equals its results delivered one "
                    "by one, both tracker kinds); that from any handler state (after Plan.set replaced or re-placed the stored result) the held "
                    "result is kept unless a later candidate is strictly better; that a 'last' tracker holds the most recent feasible function "
-                   "result; that under a sign-flipping transform the retained result maximises the user objective; and that the BasicOptimizer "
+                   "result; that under a sign-flipping transform the retained result maximises the user objective, and under any affine objective transform "
+                   "with paired deliveries the compared objective is the forward transform of the reported one, so the reported result is the "
+                   "optimum (C12_reported_is_optimum_under_pairing; the pairing hypothesis is evaluated on every real event by "
+                   "Chk_C12.paired_ok); and that the BasicOptimizer "
                    "plan reports exactly that state for every constraint_tolerance.  The model is tied to the code on every run by an in-Coq "
                    "correspondence: exhaustive bounded histories, batches and resume-after-intermediate sequences pushed through real "
                    "Plan/tracker objects, sampled long histories on chains of nested plans with resets, and real optimizations (SciPy methods "
@@ -1106,7 +1124,7 @@ MANIFEST = {
                    "correspondence accepts any tied minimiser (the property text does not order ties).  Feasibility is judged on the "
                    "optimizer-domain (transformed) result, as the anchored mechanism does.  NaN violations, infinite objectives and Plan.set of "
                    "results without a finite objective are outside the modelled domain; Plan.set itself is outside the property text (its "
-                   "modelled effect: C12_put_new / C12_reput_noop / C12_reset).  All 16 theorems print 'Closed under the global context'."),
+                   "modelled effect: C12_put_new / C12_reput_noop / C12_reset).  All 17 theorems print 'Closed under the global context'."),
     "technique": "Coq proof (fold invariants over arbitrary histories on an executable Gallina model) + in-Coq differential correspondence with real Plan/DefaultTrackerHandler/BasicOptimizer objects (exhaustive bounded + sampled + real SciPy runs)",
     "design_ref": "DESIGN.md section 4, C12; design_notes/audit_C12.md",
 }
